@@ -10,6 +10,7 @@ import common  # noqa: E402
 
 MODULES = {
     "C06": "cassette", "C14": "cassette",
+    "C07": "disk", "C08": "disk", "C15": "disk",
 }
 
 
